@@ -651,11 +651,33 @@ func nilGuarded(body *ast.BlockStmt, as *ast.AssignStmt, lhs string) bool {
 		if as.Pos() < iff.Body.Pos() || as.End() > iff.Body.End() {
 			return true
 		}
-		if be, ok := iff.Cond.(*ast.BinaryExpr); ok && be.Op == token.EQL {
-			// nil / zero / empty defaulting: the imported value is absent, so nothing is lost
-			if y := types.ExprString(be.Y); types.ExprString(be.X) == lhs && (y == "nil" || y == "0" || y == `""`) {
-				guarded = true
+		// nil / zero / empty defaulting: the imported value is absent, so nothing is lost. Accepted condition forms:
+		// lhs == nil|0|"", lhs.IsNil(), lhs.IsZero(), lhs.Empty(), and || of those.
+		var absent func(e ast.Expr) bool
+		absent = func(e ast.Expr) bool {
+			switch x := e.(type) {
+			case *ast.ParenExpr:
+				return absent(x.X)
+			case *ast.BinaryExpr:
+				if x.Op == token.LOR {
+					return absent(x.X) && absent(x.Y)
+				}
+				if x.Op == token.EQL {
+					y := types.ExprString(x.Y)
+					return types.ExprString(x.X) == lhs && (y == "nil" || y == "0" || y == `""`)
+				}
+			case *ast.CallExpr:
+				if se, ok := x.Fun.(*ast.SelectorExpr); ok && len(x.Args) == 0 && types.ExprString(se.X) == lhs {
+					switch se.Sel.Name {
+					case "IsNil", "IsZero", "Empty":
+						return true
+					}
+				}
 			}
+			return false
+		}
+		if absent(iff.Cond) {
+			guarded = true
 		}
 		return true
 	})
